@@ -42,7 +42,7 @@ META = dict(
                       renderings_indexed=300000, collision_family_renderings=50000),
         'thorough': dict(roundtrips_checked=1400000, parses_returned=2800000, standard_strings_checked=1400000,
                          arguments_checked=100000, renderings_indexed=10000000, collision_family_renderings=50000)},
-    budget=dict(quick=1500, thorough=1500),
+    budget=dict(quick=1500, thorough=7200),
     unit_timeout=dict(quick=900, thorough=3000),
 )
 
